@@ -34,6 +34,23 @@ def load_known():
         return json.load(f).get("findings", [])
 
 
+class _HarnessErrors(list):
+    """harness errors of a run; an item that hit the hard per-item wall-clock limit of vlib.par (the solver did not return) is not an error
+    of the harness but an undecided item: it is recorded as one inconclusive obligation (the coverage floor still applies)"""
+
+    def __init__(self, ctx):
+        super().__init__()
+        self._ctx = ctx
+
+    def append(self, text):
+        if "hard limit of" in str(text):
+            self._ctx.hard_timeouts += 1
+            self._ctx.ob(f"item-{self._ctx.hard_timeouts}:hard-time-limit", "inconclusive", "hard per-item time limit reached (solver did not return)")
+            self._ctx.log("HARD-TIMEOUT:", str(text)[:300])
+        else:
+            super().append(text)
+
+
 class Ctx:
 
     def __init__(self, pid: str, tier: str, seed: int, level: str = "other"):
@@ -64,7 +81,8 @@ class Ctx:
         self.extra = {}
         self.explanation = ""
         self.known = [k for k in load_known() if k.get("property") == pid]
-        self.harness_errors = []
+        self.hard_timeouts = 0
+        self.harness_errors = _HarnessErrors(self)
 
     # ---- bookkeeping -------------------------------------------------
     def log(self, *a):
@@ -161,7 +179,7 @@ class Ctx:
             "replays": self.replays,
             "spurious_models": self.spurious,
             "trusted_base": self.trusted,
-            "harness_errors": self.harness_errors,
+            "harness_errors": list(self.harness_errors),
         }
         cov.update(self.extra)
         ev = {
@@ -174,8 +192,10 @@ class Ctx:
             "wall_s": round(wall, 2),
             "violations": len(self.violations),
         }
-        os.makedirs(os.path.join(ROOT, "evidence"), exist_ok=True)
-        with open(os.path.join(ROOT, "evidence", f"{self.pid}.json"), "w") as f:
+        # VERIF_EVIDENCE_DIR: only the seed tools set it, so that runs against a changed scratch tree never overwrite the evidence of /repo
+        evdir = os.environ.get("VERIF_EVIDENCE_DIR") or os.path.join(ROOT, "evidence")
+        os.makedirs(evdir, exist_ok=True)
+        with open(os.path.join(evdir, f"{self.pid}.json"), "w") as f:
             json.dump(ev, f, indent=1, default=str)
         self.log(f"[{self.pid}] tier={self.tier} obligations={n_ob} " +
                  " ".join(f"{k}={v}" for k, v in sorted(self.verdicts.items())) +
